@@ -45,6 +45,38 @@ def has_h(e) -> bool:
     return e[1] == "h" if e[0] == "L" else has_h(e[1]) or has_h(e[2])
 
 
+def direct_verbatim(line: str, real_out: str):
+    """direct (weaker, layout-free) form of the statement, used when the marker skeleton cannot be aligned:
+    every HTML() / _repr_html_ / script-style text content must occur byte for byte in the output, in document order"""
+    from wire import Toks, p_node, p_list
+    t = Toks(line)
+    opn = t.next()
+    if opn == "render_tag_via":
+        t.next()
+    raws = []
+
+    def walk(n, esc):
+        if n[0] == "tag":
+            e2 = n[1] not in ("script", "style")
+            for c in n[4]:
+                walk(c, e2)
+        elif n[0] in ("html", "robj") or (n[0] == "text" and not esc):
+            raws.append(n[1])
+    if opn == "render_list":
+        ns = p_list(t, p_node)
+        for n in ns:
+            walk(n, True)
+    else:
+        walk(p_node(t), True)
+    pos = 0
+    for r in raws:
+        k = real_out.find(r, pos)
+        if k < 0:
+            return False
+        pos = k + len(r)
+    return True
+
+
 def run(tier: str) -> int:
     ck = core.Check(PID, tier, PROP_FILES)
     ck.prepare()
@@ -101,7 +133,10 @@ def run(tier: str) -> int:
     for _ in range(ck.budget(300, 5000)):
         ks = [gen.rand_node(rng, rng.randint(0, 3), leaves=("html", "robj", "text", "meta")) for _ in range(rng.randint(1, 5))]
         cases.append(("list", ks, rng.choice([0, 1]), "\n", rng.random() < 0.5, rng.random() < 0.7))
-    subst.check_cases(ck, cases, {"r", "h"}, "trusted markup must be emitted byte for byte")
+    for t in gen.alias_trees(rng, ck.budget(300, 4000)):
+        cases.append(("tag", t, rng.choice([0, 1]), "\n"))
+    ck.exhaustive_scopes.append({"scope": "aliasing stream: one string as HTML(), text, _repr_html_ and attribute values in one tree, lengths " + str(gen.ALIAS_LENGTHS), "exhaustive": False})
+    subst.check_cases(ck, cases, {"r", "h"}, "trusted markup must be emitted byte for byte", direct=direct_verbatim)
     ck.extra_cov["extra_evaluations"] = len(cases)
     ck.extra_cov["tree_cases"] = len(cases)
     ck.distinct_nontrivial += len({repr(c) for c in cases})
